@@ -63,6 +63,27 @@ property statement:
   ``obj.param['p']`` is read x how the class default changes afterwards (``A.p = v``, ``B.p = v``,
   ``A.param['p'].default = v``).  Oracle: the instance that assigned keeps the object it assigned, a control
   instance of the same class that never assigned shows its class's value.
+
+* layer S (attributes of the CLASS Parameter switched while instances exist): layer V's parameter and
+  alphabet plus ``S<K>K`` / ``S<K>k`` = ``K.param.p.constant = True / False`` and ``S<K>T`` / ``S<K>t`` =
+  ``K.param.p.instantiate = True / False`` (only on a class that has its own Parameter object -- A, B when it
+  redeclares ``p`` or after a class-level set on B --, and only real changes).  Oracle: the same ownership
+  model, the mode of a constructor (deep copy / the very class object / nothing) being given by the
+  attributes the Parameter of the instance's class has AT THAT MOMENT: instances created after a switch
+  behave according to the new attribute, instances created before keep what they got.  An instance-level
+  assignment that is refused with TypeError (constant) is a no-op.  Lenient reading: once the default of a
+  now-constant parameter is reassigned on the class while an instance created BEFORE the switch still
+  follows its class, the statement is ambiguous (follow / pinned) and the rest of the history is not
+  judged.  Only histories containing a switch are run (the others are layer V's).  Besides short histories
+  the guided family [create] ; [switch] ; [create] ; [anything] ; [anything] is enumerated.
+
+* layer I (inner members): layer V with NESTED values -- the outer container immutable or mutable, the
+  mutable member inside: tuple of lists, tuple containing a dict, frozenset of a mutable hashable object,
+  tuple of tuple of list, list of lists, dict of lists.  In-place mutation goes to the INNER member.  Same
+  ownership model (a cell = the content of the inner member); in addition to ``x.p is y.p`` the inner
+  members themselves must be the same object exactly between entities pointing to the same cell (a shallow
+  copy, or no copy because the outer object is immutable, leaves them shared).  A few of these shapes are also
+  run with layer S's switches.
 """
 import itertools
 import logging
@@ -113,6 +134,103 @@ R_CONFIGS = ([dict(inst=i, const=c, sub='inherit', pi=True, nov=n)
                 for i in ('False', 'ListDefault') for c in (False, True)])
 
 
+# layers S / I: value shapes.  {L} = literal of the model list, {X} = expression of a value, {v} = an int
+SHAPES = {
+    'flat': dict(t=None, typ=list, mk='{L}', inner='{X}', mut='{X}.append({v})'),
+    'tl': dict(t='Tuple', typ=tuple, mk='({L}, [7])', inner='{X}[0]', mut='{X}[0].append({v})'),
+    'td': dict(t='Parameter', typ=tuple, mk="(dict(('k%d' % n, n) for n in {L}), 7)", inner='{X}[0]',
+               mut="{X}[0]['k{v}'] = {v}", content='list({X}[0].values())'),
+    'fs': dict(t='Parameter', typ=frozenset, mk='frozenset([Box({L})])', inner='next(iter({X})).items',
+               mut='next(iter({X})).items.append({v})'),
+    'tt': dict(t='Parameter', typ=tuple, mk='(({L},), 7)', inner='{X}[0][0]', mut='{X}[0][0].append({v})'),
+    'll': dict(t='List', typ=list, mk='[{L}]', inner='{X}[0]', mut='{X}[0].append({v})'),
+    'dl': dict(t='Dict', typ=dict, mk="{{'k': {L}}}", inner="{X}['k']", mut="{X}['k'].append({v})"),
+}
+for _s in SHAPES.values():
+    _s.setdefault('content', 'list(%s)' % _s['inner'])
+I_SHAPES = ('tl', 'td', 'fs', 'tt', 'll', 'dl')
+I_CONFIGS = [dict(inst=i, const=c, sub=s, pi=True, shape=sh)
+             for sh in I_SHAPES for i in ('False', 'True') for c in (False, True) for s in ('inherit', 'redeclare')]
+S_CONFIGS = ([dict(inst=i, const=c, sub=s, pi=True, shape='flat')
+              for i in ('False', 'True', 'ListDefault') for c in (False, True) for s in ('inherit', 'redeclare')]
+             + [dict(inst=i, const=False, sub='inherit', pi=True, shape=sh) for sh in ('tl', 'fs') for i in ('False', 'True')])
+S_OPS = tuple('S%s%s' % (c, w) for c in 'AB' for w in 'KkTt')
+BOX_SOURCE = ('class Box:\n    """a hashable (by identity) object with a mutable member"""\n'
+              '    def __init__(self, items):\n        self.items = items\n')
+ISET_SOURCE = ('def iset(o, v):\n    """instance-level assignment; refused (TypeError) when the parameter is constant there"""\n'
+               '    try:\n        o.p = v\n        return True\n    except TypeError:\n        return False\n')
+_content_fn = {}
+
+
+def content_of(shape, x):
+    """the model-level content (a list) of a real value of this shape; raises when it has not the shape"""
+    f = _content_fn.get(shape)
+    if f is None:
+        sh = SHAPES[shape]
+        f = _content_fn[shape] = (eval('lambda X: ' + sh['content'].format(X='X')), eval('lambda X: ' + sh['inner'].format(X='X')))
+    if type(x) is not SHAPES[shape]['typ']:
+        raise TypeError('not a %s' % SHAPES[shape]['typ'].__name__)
+    return f[0](x)
+
+
+def inner_of(shape, x):
+    content_of(shape, x)
+    return _content_fn[shape][1](x)
+
+
+def s_alphabet(cfg):
+    ops = ['NA', 'NB', 'NBv', 'CA', 'CB', 'MA', 'MB'] + list(S_OPS)
+    for i in range(MAXI):
+        ops += ['IM%d' % i, 'IR%d' % i, 'IS%d' % i]
+    return ops
+
+
+def s_ok(cfg, ops, need_switch=True):
+    """layer S: the history contains a switch; every switch really changes the attribute and is made on a
+    class that has its own Parameter object (B shares A's until it redeclares / is assigned at class level)"""
+    a = {'inst': cfg['inst'] != 'False', 'const': cfg['const']}
+    attr = {'A': a, 'B': None if cfg['sub'] == 'inherit' else dict(a)}
+    sw = False
+    for op in ops:
+        if op[0] == 'S':
+            c, w = op[1], op[2]
+            if attr[c] is None:
+                return False
+            key = 'const' if w in 'Kk' else 'inst'
+            if attr[c][key] == w.isupper():
+                return False
+            attr[c][key] = w.isupper()
+            sw = True
+        elif op == 'CB' and attr['B'] is None:
+            attr['B'] = dict(attr['A'])
+    return sw or not need_switch
+
+
+def s_guided(cfg, length):
+    """[create] ; [switch] ; [create] (; [anything but a switch] (; [anything]))"""
+    alpha = s_alphabet(cfg)
+    tail = [o for o in alpha if o[0] != 'S']
+    for n1 in ('NA', 'NB', 'NBv'):
+        for sw in S_OPS:
+            for n2 in ('NA', 'NB', 'NBv'):
+                h = (n1, sw, n2)
+                if not s_ok(cfg, h):
+                    continue
+                if length == 3:
+                    yield h
+                    continue
+                for y in tail:
+                    if y[0] == 'N':
+                        continue
+                    if length == 4:
+                        yield h + (y,)
+                        continue
+                    for z in alpha:
+                        h5 = h + (y, z)
+                        if z[0] != 'N' and s_ok(cfg, h5) and valid_history(h5):
+                            yield h5
+
+
 def v_alphabet(cfg):
     ops = ['NA', 'NB', 'NBv', 'CA', 'CB', 'MA', 'MB']
     nov = cfg.get('nov')
@@ -133,6 +251,9 @@ def cfg_text(cfg):
 
 def v_class_source(cfg):
     kw = []
+    shape = cfg.get('shape')
+    if shape and shape != 'flat':
+        return shaped_class_source(cfg)
     if cfg['inst'] == 'ListDefault':
         t = 'List'
     else:
@@ -150,7 +271,21 @@ def v_class_source(cfg):
         b = 'class B(A):\n    pass\n'
     else:
         b = 'class B(A):\n    p = param.%s()\n' % t
-    return a + b + (NOV_SOURCE[nov] if nov else '')
+    return a + b + (NOV_SOURCE[nov] if nov else '') + (ISET_SOURCE if shape else '')
+
+
+def shaped_class_source(cfg):
+    """layers I / S with a nested value: B's redeclaration repeats ``instantiate`` (List / Dict would
+    otherwise fall back to their own default True, which is C11's business, not this property's)"""
+    sh = SHAPES[cfg['shape']]
+    kw = ['instantiate=%s' % cfg['inst']] + (['constant=True'] if cfg['const'] else [])
+    a = 'class A(param.Parameterized):\n    p = param.%s(default=%s, %s)\n' % (
+        sh['t'], sh['mk'].format(L='[0]'), ', '.join(kw))
+    if cfg['sub'] == 'inherit':
+        b = 'class B(A):\n    pass\n'
+    else:
+        b = 'class B(A):\n    p = param.%s(instantiate=%s)\n' % (sh['t'], cfg['inst'])
+    return (BOX_SOURCE if cfg['shape'] == 'fs' else '') + a + b + ISET_SOURCE
 
 
 _SRC = ('class Src(param.Parameterized):\n    n = param.Integer(default=0)\n'
@@ -186,10 +321,23 @@ def _mk_classes(src):
     return ns['A'], ns['B']
 
 
-def op_source(op, k):
+def op_source(op, k, cfg=None):
     """Python statement performing ``op`` (k = step number, used to make fresh values)."""
     kind, arg = op.rstrip('0123456789'), op[len(op.rstrip('0123456789')):]
     i = arg
+    if cfg is not None and cfg.get('shape'):
+        sh = SHAPES[cfg['shape']]
+        v = 100 + k
+        lit = sh['mk'].format(L='[%d]' % v)
+        if kind[0] == 'S':
+            return '%s.param.p.%s = %s' % (kind[1], 'constant' if kind[2] in 'Kk' else 'instantiate', kind[2].isupper())
+        return {
+            'NA': 'insts.append(A())', 'NB': 'insts.append(B())', 'NBv': 'insts.append(B(p=%s))' % lit,
+            'CA': 'A.p = %s' % lit, 'CB': 'B.p = %s' % lit,
+            'MA': sh['mut'].format(X='A.p', v=v), 'MB': sh['mut'].format(X='B.p', v=v),
+            'IM': sh['mut'].format(X='insts[%s].p' % i, v=v), 'IR': "insts[%s].param['p']" % i,
+            'IS': 'ok = iset(insts[%s], %s)' % (i, lit),
+        }[kind]
     return {
         'NA': 'insts.append(A())', 'NB': 'insts.append(B())', 'NBv': 'insts.append(B(p=[%d]))' % (100 + k),
         'NAn': 'insts.append(A(p=ref()))', 'NBn': 'insts.append(B(p=ref()))',
@@ -287,9 +435,10 @@ class VModel:
         v = 100 + k
         if kind in ('NA', 'NB', 'NAn', 'NBn'):     # a constructor whose reference yields no value assigns nothing
             c = kind[1]
-            if self.instantiate:
+            instantiate, const = self.mode(c)
+            if instantiate:
                 own = self.new(self.cells[self.cls_cell(c)])
-            elif self.const:
+            elif const:
                 own = self.cls_cell(c)
             else:
                 own = None
@@ -315,6 +464,53 @@ class VModel:
         out = [('A', self.cls_cell('A')), ('B', self.cls_cell('B'))]
         out += [('insts[%d]' % i, self.inst_cell(i)) for i in range(len(self.insts))]
         return out
+
+    def mode(self, c):
+        """(instantiate, constant) of the Parameter governing class c at this moment"""
+        return self.instantiate, self.const
+
+
+class SModel(VModel):
+    """layer S: the attributes of the class Parameters change during the history"""
+
+    def __init__(self, cfg):
+        VModel.__init__(self, cfg)
+        a = {'inst': self.instantiate, 'const': self.const}
+        self.attr = {'A': a, 'B': None if cfg['sub'] == 'inherit' else dict(a)}
+        self.ambiguous = False
+
+    def pattr(self, c):
+        return self.attr[c] if self.attr[c] is not None else self.attr['A']
+
+    def mode(self, c):
+        a = self.pattr(c)
+        return a['inst'], a['const']
+
+    def apply(self, op, k):
+        kind = op.rstrip('0123456789')
+        if kind[0] == 'S':
+            self.pattr(kind[1])['const' if kind[2] in 'Kk' else 'inst'] = kind[2].isupper()
+            return
+        if kind == 'CB' and self.attr['B'] is None:          # copy-on-write: B gets its own Parameter object
+            self.attr['B'] = dict(self.attr['A'])
+        # A *stale follower* = an instance created while its parameter was neither instantiate nor constant, never
+        # assigned, whose parameter has since been switched to instantiate / constant.  "follows the class" and
+        # "copied per instance / keeps the object it had" pull in different directions once the value it shows is
+        # reassigned or mutated: not judged any further.
+        stale = [i for i, (c, own) in enumerate(self.insts) if own is None and any(self.mode(c))]
+        if stale:
+            if kind in ('CA', 'CB'):
+                hit = [i for i in stale if self.insts[i][0] == kind[1]
+                       or (kind == 'CA' and self.cls['B'] is None)]
+            elif kind in ('MA', 'MB'):
+                hit = [i for i in stale if self.inst_cell(i) == self.cls_cell(kind[1])]
+            elif kind == 'IM':
+                hit = [i for i in stale if self.inst_cell(i) == self.inst_cell(int(op[-1]))]
+            else:
+                hit = []
+            if hit:
+                self.ambiguous = True
+        VModel.apply(self, op, k)
 
 
 def _ekind(op, name, ninst):
@@ -368,6 +564,9 @@ def _v_run_all(cfg, ops, hits):
     env = {'param': _P()}
     exec(_compiled(v_class_source(cfg)), env)
     env['insts'] = []
+    shape = cfg.get('shape')
+    if shape:
+        return _s_run_all(cfg, ops, hits, env, shape)
     model = VModel(cfg)
     out = []
     for k, op in enumerate(ops):
@@ -404,6 +603,105 @@ def _v_run_all(cfg, ops, hits):
         if bad is not None:
             out.append(bad)
             _adopt(model, ents, vals)
+    return out
+
+
+def _s_adopt(model, ents, vals, shape):
+    """_adopt for shaped values: cells are re-derived from the identity of the real INNER members"""
+    seen, cells, ecell = {}, {}, {}
+    for (name, _), r in zip(ents, vals):
+        try:
+            inner, cont = inner_of(shape, r), list(content_of(shape, r))
+        except Exception:
+            inner, cont = r, [repr(r)]
+        if id(inner) not in seen:
+            seen[id(inner)] = model.next
+            cells[model.next] = cont
+            model.next += 1
+        ecell[name] = seen[id(inner)]
+    model.cells = cells
+    follow_b = model.cls['B'] is None and ecell['B'] == ecell['A']
+    model.cls['A'] = ecell['A']
+    model.cls['B'] = None if follow_b else ecell['B']
+    for i, ic in enumerate(model.insts):
+        c = ecell['insts[%d]' % i]
+        if ic[1] is None and c == model.cls_cell(ic[0]):
+            continue
+        ic[1] = c
+
+
+def _s_run_all(cfg, ops, hits, env, shape):
+    """layers S and I: values of shape ``shape``, switches of the class Parameter's attributes"""
+    sh = SHAPES[shape]
+    model = SModel(cfg)
+    out = []
+    for k, op in enumerate(ops):
+        kind = op.rstrip('0123456789')
+        try:
+            exec(_compiled(op_source(op, k, cfg)), env)
+        except Exception as e:
+            out.append((k, 'C12/V/operation-raised', '%s raised %r' % (op, e), None))
+            return out
+        if kind == 'IS' and not env['ok']:
+            continue                      # refused (constant): a no-op; the statement does not say when it must be accepted
+        model.apply(op, k)
+        if model.ambiguous:
+            return out
+        if kind[0] == 'S':
+            attr = 'constant' if kind[2] in 'Kk' else 'instantiate'
+            if hits is not None:
+                hits[1] += 1
+            if getattr(env[kind[1]].param.p, attr) is not kind[2].isupper():
+                out.append((k, 'C12/V/effect/%s/switch-lost' % kind[:2],
+                            'after %s: %s.param.p.%s is %r' % (op, kind[1], attr, getattr(env[kind[1]].param.p, attr)),
+                            ('%s.param.p.%s' % (kind[1], attr), kind[2].isupper())))
+                return out
+        ents = model.entities()
+        vals = [eval(name + '.p', env) for name, _ in ents]
+        if hits is not None:
+            hits[0] += len(ents)
+            hits[1] += len(ents) * (len(ents) - 1) // 2
+        bad = None
+        inners = []
+        for (name, cell), real in zip(ents, vals):
+            want = model.cells[cell]
+            try:
+                got = content_of(shape, real)
+                inners.append(inner_of(shape, real))
+            except Exception:
+                got = None
+            if got != want:
+                bad = (k, 'C12/V/value/%s/%s' % (kind, _ekind(op, name, len(model.insts))),
+                       'after %s: %s.p is %r, ownership model gives %s' % (op, name, real, sh['mk'].format(L=repr(want))),
+                       (sh['content'].format(X='%s.p' % name), list(want)))
+                break
+        if bad is None:
+            for a in range(len(ents)):
+                for b in range(a + 1, len(ents)):
+                    if bad is not None:
+                        break
+                    want = ents[a][1] == ents[b][1]
+                    same = vals[a] is vals[b]
+                    if same != want:
+                        bad = (k, 'C12/V/identity/%s/%s' % (kind, 'unexpected-alias' if same else 'unexpected-copy'),
+                               'after %s: (%s.p is %s.p) is %r, ownership model gives %r'
+                               % (op, ents[a][0], ents[b][0], same, want),
+                               ('%s.p is %s.p' % (ents[a][0], ents[b][0]), want))
+                        continue
+                    if shape == 'flat':
+                        continue
+                    same = inners[a] is inners[b]
+                    if same != want:
+                        ia, ib = (sh['inner'].format(X='%s.p' % ents[j][0]) for j in (a, b))
+                        bad = (k, 'C12/V/inner-identity/%s/%s' % (kind, 'unexpected-alias' if same else 'unexpected-copy'),
+                               'after %s: (%s is %s) is %r (the mutable member inside the %s), ownership model gives %r'
+                               % (op, ia, ib, same, sh['typ'].__name__, want),
+                               ('%s is %s' % (ia, ib), want))
+        if bad is not None:
+            out.append(bad)
+            if '/inner-identity/' in bad[1]:
+                return out            # outer objects distinct, members shared: no cell assignment describes that state
+            _s_adopt(model, ents, vals, shape)
     return out
 
 
@@ -937,7 +1235,7 @@ def e_replay(case, clause, witness):
 def run_any(layer, cfg, ops, hits=None):
     if layer == 'D':
         return d_run(cfg, ops, hits)
-    return (v_run if layer in 'VR' else m_run)(cfg, ops, hits)
+    return (v_run if layer in 'VRSI' else m_run)(cfg, ops, hits)
 
 
 def _delete(ops, j):
@@ -970,7 +1268,7 @@ def shrink(layer, cfg, ops, clause):
         changed = False
         for j in range(len(ops) - 1, -1, -1):
             cand = _delete(ops, j)
-            if not cand or not valid_history(cand):
+            if not cand or not valid_history(cand) or (layer == 'S' and not s_ok(cfg, cand, False)):
                 continue
             r2 = run_any(layer, cfg, cand)
             if r2 is not None and r2[1] == clause:
@@ -993,13 +1291,13 @@ def replay_script(layer, cfg, ops, clause, witness):
     head = _header(prop='C12', name='replay_c12.py', clause=clause, witness=witness)
     lines = [head, 'import warnings, logging', 'import param', "warnings.simplefilter('ignore')",
              "logging.getLogger('param').setLevel(logging.CRITICAL)"]
-    if layer in 'VRD':
+    if layer in 'VRDSI':
         if layer == 'D':
             srcs = []
             d_run(cfg, ops, sources=srcs)
             lines.append(d_class_source(cfg))
         else:
-            srcs = [op_source(op, j) for j, op in enumerate(ops)]
+            srcs = [op_source(op, j, cfg) for j, op in enumerate(ops)]
             lines.append(v_class_source(cfg))
         lines.append('insts = []')
         if check is None:       # the operation itself raised
@@ -1053,11 +1351,13 @@ def replay_script(layer, cfg, ops, clause, witness):
 # ---------------------------------------------------------------------------------------------
 # tasks
 # ---------------------------------------------------------------------------------------------
-LAYERS = (('V', V_CONFIGS), ('R', R_CONFIGS), ('M', M_CONFIGS), ('D', D_CONFIGS))
+LAYERS = (('V', V_CONFIGS), ('R', R_CONFIGS), ('M', M_CONFIGS), ('D', D_CONFIGS), ('S', S_CONFIGS), ('I', I_CONFIGS))
 
 
 def alphabet_of(layer, cfg):
-    return d_alphabet(cfg) if layer == 'D' else v_alphabet(cfg) if layer in 'VR' else m_alphabet(cfg)
+    if layer == 'S':
+        return s_alphabet(cfg)
+    return d_alphabet(cfg) if layer == 'D' else v_alphabet(cfg) if layer in 'VRI' else m_alphabet(cfg)
 
 
 def d_plan(tier):
@@ -1069,6 +1369,17 @@ def d_plan(tier):
     return 1, [(3, 1), (4, 3), (5, 300)], [(2, 300), (3, 150), (4, 150), (5, 100)]
 
 
+def s_plan(tier, cfg):
+    """layer S -> (exhaustive length, guided lengths [(length, keep one in n)], [(sampled length, count)]);
+    the nested shapes get the guided family and a smaller sample only"""
+    flat = cfg['shape'] == 'flat'
+    if tier == 'thorough':
+        return (3 if flat else 2), [(3, 1), (4, 1), (5, 2 if flat else 4)], [(4, 1500), (5, 1000)] if flat else [(4, 500)]
+    if tier == 'smoke':
+        return 1, [(3, 1)], [(4, 30)]
+    return (2 if flat else 1), [(3, 1), (4, 2 if flat else 4), (5, 150)], [(4, 60), (5, 40)] if flat else [(4, 20)]
+
+
 def _has_ref_ctor(ops):
     return any(o in ('NAn', 'NBn') for o in ops)
 
@@ -1077,6 +1388,14 @@ def plan(tier, layer, cfg):
     """-> (length of the exhaustive enumeration, [(sampled length, number of histories), ...])"""
     if layer == 'D':
         return d_plan(tier)[0], d_plan(tier)[2]
+    if layer == 'S':
+        return s_plan(tier, cfg)[0], s_plan(tier, cfg)[2]
+    if layer == 'I':
+        if tier == 'thorough':
+            return 3, [(4, 500), (5, 250)]
+        if tier == 'smoke':
+            return 1, [(3, 20)]
+        return 2, [(3, 40), (4, 20)]
     inherit = cfg['sub'] == 'inherit'
     if layer == 'R':        # (only the histories containing a reference-keyword constructor are run)
         main = cfg['nov'] == 'raise'     # the other kinds take the same branch of _setup_params after _resolve_ref
@@ -1117,6 +1436,18 @@ def plan_text(tier):
                    DEPTH, exh, ', '.join('%d (%s)' % (L, 'all' if n == 1 else 'one in %d, chosen by the seed' % n)
                                          for L, n in guided),
                    ''.join(' + %d seeded of length %d' % (n, L) for L, n in smp)))
+    for flat in (True, False):
+        cfg = [c for c in S_CONFIGS if (c['shape'] == 'flat') == flat][0]
+        exh, guided, smp = s_plan(tier, cfg)
+        out.append('layer S (%s): all histories of length %d containing a switch + the guided family [create; switch; '
+                   'create; anything but a switch; anything] cut at length %s%s' % (
+                       'flat list value, instantiate x constant x B inherits/redeclares' if flat
+                       else 'nested values tl/fs, B inherits', exh,
+                       ', '.join('%d (%s)' % (L, 'all' if n == 1 else 'one in %d, chosen by the seed' % n) for L, n in guided),
+                       ''.join(' + %d seeded of length %d' % (n, L) for L, n in smp)))
+    exh, smp = plan(tier, 'I', I_CONFIGS[0])
+    out.append('layer I (nested values %s x instantiate x constant x B inherits/redeclares): all histories of length %d%s'
+               % ('/'.join(I_SHAPES), exh, ''.join(' + %d seeded of length %d' % (n, L) for L, n in smp)))
     return '; '.join(out) + ' -- per configuration; layer E: the full product (%d cases)' % len(list(e_cases()))
 
 
@@ -1137,7 +1468,7 @@ def _work(task):
         nonlocal n
         n += 1
         try:
-            if layer in 'VR':
+            if layer in 'VRSI':
                 rs = v_run_all(cfg, ops, hits)
             elif layer == 'D':
                 r = d_run(cfg, ops, hits)
@@ -1157,12 +1488,12 @@ def _work(task):
     if mode == 'exh':
         length, first = arg
         for ops in histories(alphabet, length, first):
-            if layer == 'R' and not _has_ref_ctor(ops):
+            if (layer == 'R' and not _has_ref_ctor(ops)) or (layer == 'S' and not s_ok(cfg, ops)):
                 continue
             one(ops)
     elif mode == 'gui':
         length, keep, part, nparts = arg
-        for idx, ops in enumerate(d_guided(cfg, length)):
+        for idx, ops in enumerate((s_guided if layer == 'S' else d_guided)(cfg, length)):
             if idx % nparts != part:
                 continue
             if keep > 1 and zlib.crc32(('%d|%s' % (seed, ';'.join(ops))).encode()) % keep:
@@ -1176,7 +1507,8 @@ def _work(task):
         while len(keys) < count and tries < count * 30:
             tries += 1
             ops = tuple(rnd.choice(alphabet) for _ in range(length))
-            if not valid_history(ops) or ops in keys or (layer == 'R' and not _has_ref_ctor(ops)):
+            if (not valid_history(ops) or ops in keys or (layer == 'R' and not _has_ref_ctor(ops))
+                    or (layer == 'S' and not s_ok(cfg, ops))):
                 continue
             keys.add(ops)
             one(ops)
@@ -1211,6 +1543,11 @@ def make_tasks(tier, seed):
                     nparts = 1 if L == 3 else 4 if L == 4 else 16
                     for part in range(nparts):
                         tasks.append((layer, cfg, 'gui', (L, keep, part, nparts), seed))
+            if layer == 'S':
+                for L, keep in s_plan(tier, cfg)[1]:
+                    nparts = 1 if L < 5 else 4
+                    for part in range(nparts):
+                        tasks.append((layer, cfg, 'gui', (L, keep, part, nparts), seed))
             for first in [o for o in alphabet if o[0] != 'I']:   # a history cannot start on an instance
                 tasks.append((layer, cfg, 'exh', (exh, first), seed))
             for L, count in sampled:
@@ -1218,10 +1555,12 @@ def make_tasks(tier, seed):
     return tasks
 
 
-def witness_class(clause, layer, ops):
+def witness_class(clause, layer, ops, cfg=None):
+    if cfg is not None and cfg.get('shape', 'flat') != 'flat':     # nested values: immutable / mutable outer container
+        return witness_class(clause, layer, ops) + (SHAPES[cfg['shape']]['typ'] in (tuple, frozenset),)
     if layer == 'D':
         return (layer,) + tuple(o[:-1] if o[0] == 'I' else o for o in ops)
-    kinds = tuple(o.rstrip('0123456789') if layer in 'VR' else (o if o in ('NA', 'NB') else o[:-1]) for o in ops)
+    kinds = tuple(o.rstrip('0123456789') if layer in 'VRSI' else (o if o in ('NA', 'NB') else o[:-1]) for o in ops)
     return (layer,) + kinds
 
 
@@ -1248,6 +1587,11 @@ def _run(tier, seed):
              'created after it was added).  Layer E (product): parameter kind x how an instance assigns the object '
              'that is / equals the class default x class of the instance x read of obj.param x later change of '
              'the class default: the instance keeps what it assigned, a control instance follows its class.  '
+             'Layer S: layer V plus K.param.p.constant / .instantiate switched to True / False on a class that owns '
+             'its Parameter, while instances exist (constructor mode = the attributes at that moment; earlier '
+             'instances keep what they got).  Layer I: layer V over nested values (tuple of lists, tuple with a dict, '
+             'frozenset of a mutable object, tuple of tuple of list, list of lists, dict of lists), in-place '
+             'mutation of the INNER member, identity of outer and inner objects <=> same cell.  '
              'Distinct = distinct (layer, configuration, history); histories using an instance '
              'before creating it are not generated.' % MAXI,
         bound='%s: %s' % (tier, plan_text(tier)))
@@ -1268,8 +1612,8 @@ def _run(tier, seed):
             for c, k in fc.items():
                 failcount[c] = failcount.get(c, 0) + k
             continue
-        B.checked('C12/%s/%s' % (layer, 'value==cell-content' if layer in 'VRD' else 'frame:others-unchanged'), hits[0])
-        B.checked('C12/%s/%s' % (layer, 'identity<=>same-cell' if layer in 'VRD' else 'value-rules+effect+sharing'), hits[1])
+        B.checked('C12/%s/%s' % (layer, 'value==cell-content' if layer in 'VRDSI' else 'frame:others-unchanged'), hits[0])
+        B.checked('C12/%s/%s' % (layer, 'identity<=>same-cell' if layer in 'VRDSI' else 'value-rules+effect+sharing'), hits[1])
         for f in fl:
             fails.append((f[0], layer, cfg, f[1], f[2]))
         for c, k in fc.items():
@@ -1299,7 +1643,16 @@ def _run(tier, seed):
             B.note('not confirmed as a first violation (seen only after an earlier one): %s %s'
                    % (clause, witness_text(layer, cfg, ops)))
             continue
-        wk = (clause, witness_class(clause, layer, mops))
+        if layer == 'S' and not any(o[0] == 'S' for o in mops):
+            # the minimal history has no switch: it is a history of layer V (flat list) / layer I (nested value)
+            cand = ('V', {k: v for k, v in cfg.items() if k != 'shape'}) if cfg['shape'] == 'flat' else ('I', cfg)
+            try:
+                r = run_any(cand[0], cand[1], mops)
+            except Exception:
+                r = None
+            if r is not None and r[1] == clause and r[0] == len(mops) - 1:
+                layer, cfg = cand
+        wk = (clause, witness_class(clause, layer, mops, cfg))
         if wk in seen:
             seen[wk]['count'] += 1
             continue
